@@ -35,6 +35,9 @@ pub struct Params {
     pub delay_ms: u64,
     pub silence: Silence,
     pub traffic: bool,
+    /// the peer keeps sending frames of its own (stream data, keep-alive requests, padding) every I/4 whether or not it
+    /// answers the client's keep-alive requests: only answers count as answers
+    pub chatter: bool,
     /// the largest value the command line accepts (u64::MAX seconds) instead of interval_ms / timeout_ms
     pub huge_interval: bool,
     pub huge_timeout: bool,
@@ -88,16 +91,43 @@ pub fn make(p: Params) -> ScenarioFn {
             let rc = req_count.clone();
             let silence = p.silence;
             let delay = p.delay_ms;
+            let chatter = p.chatter;
+            let chat_every = Duration::from_millis((p.interval_ms / 4).max(1));
+            let chat_stream = st.id();
             let peer_task = tokio::spawn(async move {
                 let mut reqs = 0u32;
+                let mut next_chat = tokio::time::Instant::now() + chat_every;
+                let mut chat_n = 0u32;
+                let mut opened = false;
                 loop {
-                    let Some(f) = link.peer.next_frame().await else {
+                    let f = if chatter {
+                        tokio::select! {
+                            biased;
+                            f = link.peer.next_frame() => f,
+                            _ = tokio::time::sleep_until(next_chat) => {
+                                match chat_n % 3 {
+                                    0 if opened => link.peer.send(PSH, chat_stream, b"chat"),
+                                    1 => link.peer.send(HEART_REQ, 7, b""),
+                                    _ => link.peer.send(WASTE, 0, &[0u8; 5]),
+                                }
+                                chat_n += 1;
+                                next_chat += chat_every;
+                                continue;
+                            }
+                        }
+                    } else {
+                        link.peer.next_frame().await
+                    };
+                    let Some(f) = f else {
                         link.peer.close_write();
                         break;
                     };
                     match f.cmd {
                         SETTINGS => link.peer.send(SERVER_SETTINGS, 0, b"v=2"),
-                        PSH if f.data.len() == 7 && f.data[0] == 1 => link.peer.send(SYNACK, f.id, b""),
+                        PSH if f.data.len() == 7 && f.data[0] == 1 => {
+                            opened = true;
+                            link.peer.send(SYNACK, f.id, b"")
+                        }
                         HEART_REQ => {
                             reqs += 1;
                             *rc.lock().unwrap() = reqs;
@@ -236,7 +266,7 @@ pub fn make(p: Params) -> ScenarioFn {
 }
 
 pub fn params_json(p: &Params) -> serde_json::Value {
-    json!({"interval_ms": p.interval_ms, "timeout_ms": p.timeout_ms, "one_way_delay_ms": p.delay_ms, "silence": format!("{:?}", p.silence), "traffic": p.traffic, "huge_interval": p.huge_interval, "huge_timeout": p.huge_timeout})
+    json!({"interval_ms": p.interval_ms, "timeout_ms": p.timeout_ms, "one_way_delay_ms": p.delay_ms, "silence": format!("{:?}", p.silence), "traffic": p.traffic, "peer_chatter": p.chatter, "huge_interval": p.huge_interval, "huge_timeout": p.huge_timeout})
 }
 
 pub fn all_params(tier: Tier) -> Vec<(Params, usize)> {
@@ -261,14 +291,14 @@ pub fn all_params(tier: Tier) -> Vec<(Params, usize)> {
                 }
             }
             for d in delays {
-                v.push((Params { interval_ms: i * 1000, timeout_ms: t * 1000, delay_ms: d, silence: Silence::BlackholeAfter(k), traffic: true, huge_interval: false, huge_timeout: false }, if thorough && d == 1 { 1 } else { 0 }));
+                v.push((Params { interval_ms: i * 1000, timeout_ms: t * 1000, delay_ms: d, silence: Silence::BlackholeAfter(k), traffic: true, chatter: false, huge_interval: false, huge_timeout: false }, if thorough && d == 1 { 1 } else { 0 }));
             }
         }
     }
     // the largest values the command line accepts
     for (hi, ht) in [(false, true), (true, false), (true, true)] {
         for s in [Silence::Never, Silence::FromStart, Silence::AfterResponse(1)] {
-            v.push((Params { interval_ms: 1000, timeout_ms: 1000, delay_ms: 1, silence: s, traffic: false, huge_interval: hi, huge_timeout: ht }, 0));
+            v.push((Params { interval_ms: 1000, timeout_ms: 1000, delay_ms: 1, silence: s, traffic: false, chatter: false, huge_interval: hi, huge_timeout: ht }, 0));
         }
     }
     for i in &intervals {
@@ -296,7 +326,11 @@ pub fn all_params(tier: Tier) -> Vec<(Params, usize)> {
                         }
                         // schedule deviations on a subset: small configurations
                         let bound = if *i <= 2 && *t <= 3 && d <= 1 && (thorough || !traffic) { 1 } else { 0 };
-                        v.push((Params { interval_ms: i_ms, timeout_ms: t_ms, delay_ms: d, silence: *s, traffic, huge_interval: false, huge_timeout: false }, bound));
+                        v.push((Params { interval_ms: i_ms, timeout_ms: t_ms, delay_ms: d, silence: *s, traffic, chatter: false, huge_interval: false, huge_timeout: false }, bound));
+                        // a peer that keeps talking (data, its own keep-alive requests, padding) without answering
+                        if !traffic && (thorough || matches!(s, Silence::Never | Silence::FromStart | Silence::AfterResponse(1) | Silence::BeforeResponse(2))) {
+                            v.push((Params { interval_ms: i_ms, timeout_ms: t_ms, delay_ms: d, silence: *s, traffic, chatter: true, huge_interval: false, huge_timeout: false }, 0));
+                        }
                     }
                 }
             }
